@@ -47,7 +47,7 @@ ASSUMPTIONS = [
 ]
 REAL = ["pynmon FastAPI application and all views", "pynmon.util family tree / timeline builders", "both backend families"]
 STUBBED = ["HTTP transport (in-process ASGI)", "clock", "uuid4"]
-PROBES = ["routes_requested", "queue_longer_than_limit", "partially_purged_store", "http_200", "http_4xx", "http_5xx"]
+PROBES = ["routes_requested", "queue_longer_than_limit", "partially_purged_store", "aged_final_invocations", "http_200", "http_4xx", "http_5xx"]
 
 _ROUTES: list[tuple[str, list[dict]]] | None = None
 
@@ -139,6 +139,11 @@ def run(seed: int, params: dict, replay: dict | None = None) -> dict:
             # the state backend lost its records, the queue still names them
             app.state_backend.purge()
             bump("probe.partially_purged_store")
+        aged = rng.random() < 0.35
+        if aged:
+            # a day later: final invocations are older than auto_final_invocation_purge_hours (a view must still not purge them)
+            sim.advance(25 * 3600.0)
+            bump("probe.aged_final_invocations")
         known = sorted({e for e in inv_ids} | {str(x) for x in app.orchestrator.get_invocation_ids_paginated(limit=200)})
         qlen = app.broker.count_invocations()
         # ---- requests --------------------------------------------------
@@ -212,7 +217,7 @@ def run(seed: int, params: dict, replay: dict | None = None) -> dict:
                         if what == "queue":
                             qb, qa = before["queue"], after["queue"]
                             what = "queue-lost" if sorted(qa) != sorted(qb) else "queue-reordered"
-                        viol.append({"signature": f"C20/{stack}/{what}/GET {route}/http={code}/partial={int(partial)}", "message": f"GET {url} (HTTP {code}) changed the monitored system: {d[:4]}"})
+                        viol.append({"signature": f"C20/{stack}/{what}/GET {route}/http={code}/partial={int(partial)}/aged={int(aged)}", "message": f"GET {url} (HTTP {code}) changed the monitored system: {d[:4]}"})
                         before = after  # keep comparing later requests against the new state
                     if pa.pynenc_instance is not app:
                         pa.pynenc_instance = app
@@ -226,7 +231,7 @@ def run(seed: int, params: dict, replay: dict | None = None) -> dict:
             "sim_time": round(sim.now - sim.epoch, 4),
             "sched_hash": hashlib.sha256(tr + str(seed).encode()).hexdigest()[:16],
             "nontrivial": bool(stats.get("probe.queue_longer_than_limit") or partial),
-            "sample": {"stack": stack, "submitted": n_sub, "ran": n_run, "queue_len": qlen, "partially_purged": partial, "requests": reqs[:10], "n_requests": len(reqs)},
+            "sample": {"stack": stack, "submitted": n_sub, "ran": n_run, "queue_len": qlen, "partially_purged": partial, "aged_a_day": aged, "requests": reqs[:10], "n_requests": len(reqs)},
             "digest": hashlib.sha256(tr + repr(sorted(v["signature"] for v in viol)).encode()).hexdigest(),
         }
     finally:
